@@ -45,7 +45,7 @@ const (
 	hACRH = "Access-Control-Request-Headers"
 )
 
-var corsRouteAllow = []string{"GET", "HEAD", "OPTIONS", "POST"}
+var corsRouteAllow0 = []string{"GET", "HEAD", "OPTIONS", "POST"}
 
 func hasAny(xs []string) bool { return contains(xs, "*") }
 
@@ -61,7 +61,7 @@ func tokenSet(v string) []string {
 }
 
 // corsJudge returns the C11 and C12 complaints for one response.
-func corsJudge(cfg corsCfg, q corsReq, status int, h map[string][]string) (c11, c12 []string) {
+func corsJudge(cfg corsCfg, q corsReq, status int, h map[string][]string, corsRouteAllow []string) (c11, c12 []string) {
 	get := func(k string) (string, bool) {
 		v, ok := h[k]
 		if !ok || len(v) == 0 {
@@ -335,7 +335,7 @@ func runCORS(c *Ctx, prop string) {
 			c.Violate("CORS request panicked or nil handler", map[string]any{"config": cfg.class, "request": q.class})
 			return
 		}
-		c11, c12 := corsJudge(cfg, q, o.Status, o.Header)
+		c11, c12 := corsJudge(cfg, q, o.Status, o.Header, corsRouteAllow0)
 		complaints := c11
 		if prop == "C12" {
 			complaints = c12
@@ -356,6 +356,102 @@ func runCORS(c *Ctx, prop string) {
 		c.Nontrivial(cfg.class + "|" + q.class + "|" + q.Origin + "|" + q.ACRH)
 		if c.WantSample("cors") && has && q.Method == "OPTIONS" {
 			c.Sample("cors", map[string]any{"config": cfg.class, "request": q.class, "response_headers": o.Header})
+		}
+	}
+	corsHistory(c, prop, cfg, r, env)
+}
+
+// corsHistory: the route's method set changes (methods added, removed by name - also absent ones and
+// repeated names -, removed entirely and re-added) and a reduced request matrix is judged after every
+// step against the model's current Allow set. Grants must follow the route table at every moment.
+func corsHistory(c *Ctx, prop string, cfg corsCfg, r *mux.Router[*mon.Hnd], env *mon.Env) {
+	rnd := c.R
+	live := map[string]bool{"GET": true, "POST": true}
+	allow := func() []string {
+		if len(live) == 0 {
+			return nil
+		}
+		set := []string{"OPTIONS"}
+		for m := range live {
+			set = append(set, m)
+		}
+		if live["GET"] {
+			set = append(set, "HEAD")
+		}
+		sort.Strings(set)
+		return set
+	}
+	anyM := []string{"GET", "POST", "DELETE", "PUT", "PATCH", "CONNECT"}
+	var ops []string
+	for step := 0; step < 8 && !c.Violated(); step++ {
+		switch rnd.Intn(5) {
+		case 0, 1: // add a method that is not live
+			var free []string
+			for _, m := range anyM {
+				if !live[m] {
+					free = append(free, m)
+				}
+			}
+			if len(free) > 0 {
+				m := ref.Pick(rnd, free)
+				r.Handle("/c/{id}", env.NewHnd(mon.KRoute, "/c/{id}"), nil, m)
+				live[m] = true
+				ops = append(ops, "Handle "+m)
+			}
+		case 2, 3: // remove by name: a live one, an absent one, a repeated one
+			ms := []string{ref.Pick(rnd, anyM), ref.Pick(rnd, anyM)}
+			if rnd.Bool() {
+				ms = append(ms, ms[0])
+			}
+			r.Remove("/c/{id}", ms...)
+			for _, m := range ms {
+				delete(live, m)
+			}
+			ops = append(ops, fmt.Sprintf("Remove %v", ms))
+		default:
+			r.Remove("/c/{id}")
+			live = map[string]bool{}
+			ops = append(ops, "Remove all")
+		}
+		cur := allow()
+		for _, m := range []string{"GET", "POST", "OPTIONS", "PUT", "DELETE"} {
+			for _, origin := range []string{"https://a.example", "https://evil.example"} {
+				for _, acrm := range []string{"", "GET", "POST", "PUT", "DELETE", "PATCH"} {
+					if acrm != "" && m != "OPTIONS" {
+						continue
+					}
+					q := corsReq{Method: m, PathClass: "live", HasOrigin: true, Origin: origin, ACRM: acrm, class: fmt.Sprintf("after %v: %s origin=%s acrm=%q", ops, m, origin, acrm)}
+					if len(cfg.AllowH) > 0 && !hasAny(cfg.AllowH) && rnd.Bool() {
+						q.ACRH = strings.ToLower(cfg.AllowH[0])
+					}
+					if cur == nil {
+						q.PathClass = "notfound" // the route is gone: every request is a 404
+					}
+					hdr := map[string]string{"Origin": q.Origin}
+					if q.ACRM != "" {
+						hdr[hACRM] = q.ACRM
+					}
+					if q.ACRH != "" {
+						hdr[hACRH] = q.ACRH
+					}
+					o := mon.Do(r, mon.Req{Method: m, Path: "/c/7", Header: hdr})
+					c.Eval()
+					if o.Panicked || o.NilHandler {
+						c.Violate("CORS request panicked or nil handler", map[string]any{"config": cfg.class, "request": q.class})
+						return
+					}
+					c11, c12 := corsJudge(cfg, q, o.Status, o.Header, cur)
+					cm := c11
+					if prop == "C12" {
+						cm = c12
+					}
+					if len(cm) > 0 {
+						c.Violate(strings.Join(cm, "; "), map[string]any{"config": cfg.class, "request": q.class, "route_allow": cur, "request_headers": hdr, "status": o.Status, "response_headers": o.Header})
+						return
+					}
+					c.Class("history_request_judged")
+				}
+			}
 		}
 	}
 }
@@ -379,7 +475,7 @@ func corsDirected(prop string) func() []Directed {
 				}
 				o := mon.Do(r, mon.Req{Method: q.Method, Path: "/c/7", Header: hdr})
 				c.Eval()
-				c11, c12 := corsJudge(cfg, q, o.Status, o.Header)
+				c11, c12 := corsJudge(cfg, q, o.Status, o.Header, corsRouteAllow0)
 				cm := c11
 				if prop == "C12" {
 					cm = c12
